@@ -27,6 +27,15 @@ theorem sendAEToPeers_fields (n : Node) (now : Nat) :
   simp only
   split <;> simp [tryApplyReadOnly]
 
+theorem sendAEToPeers_reads (n : Node) (now : Nat) :
+    (n.sendAEToPeers now).1.readSeq = n.readSeq ∧
+    (n.sendAEToPeers now).1.aeRounds = (n.nextRound, 1, n.readSeq) :: n.aeRounds ∧
+    (n.sendAEToPeers now).1.pendingReads =
+      (if n.config.isSingle n.id then (n.tryApplyReadOnly now n.readSeq).1.pendingReads else n.pendingReads) := by
+  unfold sendAEToPeers
+  simp only
+  split <;> exact ⟨rfl, rfl, rfl⟩
+
 theorem becomeLeader_fields (n : Node) (now : Nat) :
     (n.becomeLeader now).1.term = n.term ∧ (n.becomeLeader now).1.votedFor = n.votedFor ∧
     (n.becomeLeader now).1.role = .leader ∧ (n.becomeLeader now).1.id = n.id ∧
@@ -46,18 +55,18 @@ theorem becomeLeader_fields (n : Node) (now : Nat) :
 theorem becomeFollower_rounds (n : Node) (now l t : Nat) :
     (n.becomeFollower now l t).1.rvRounds = n.rvRounds ∧ (n.becomeFollower now l t).1.nextRound = n.nextRound := ⟨rfl, rfl⟩
 
-/-- A configuration with at least two members is never the single-server case. -/
-theorem not_single_of_two (c : Config) (id : Nat) (h : 2 ≤ c.members.length) : c.isSingle id = false := by
+/-- A configuration with at least two voters is never the single-server case. -/
+theorem not_single_of_two (c : Config) (id : Nat) (h : 2 ≤ c.voters) : c.isSingle id = false := by
   unfold Config.isSingle
-  have : (c.members.length == 1) = false := by
-    cases hh : c.members.length == 1 with
+  have : (c.voters == 1) = false := by
+    cases hh : c.voters == 1 with
     | false => rfl
     | true => simp at hh; omega
   simp [this]
 
 /-! ### `election` -/
 
-/-- The four outcomes of one election-loop iteration in a cluster with at least two members. -/
+/-- The outcomes of one election-loop iteration in a cluster with at least two voters. -/
 inductive ElectionOutcome (n : Node) (n' : Node) (eff : List Effect) : Prop
   | idle : n' = n → eff = [] → ElectionOutcome n n' eff
   | prevote :
@@ -71,7 +80,7 @@ inductive ElectionOutcome (n : Node) (n' : Node) (eff : List Effect) : Prop
       eff = Effect.setState (n.term + 1) n.id :: (n.config.voterIds.filter (· ≠ n.id)).map (fun i => Effect.spawnRV i false) →
       n'.config.isVoter n'.id = true → ElectionOutcome n n' eff
 
-theorem election_outcome (n : Node) (now : Nat) (h2 : 2 ≤ n.config.members.length) :
+theorem election_outcome (n : Node) (now : Nat) (h2 : 2 ≤ n.config.voters) :
     ElectionOutcome n (n.election now).1 (n.election now).2 := by
   have hs := not_single_of_two n.config n.id h2
   unfold election
